@@ -312,7 +312,11 @@ def check(prog, ctx):
              'any clamp applies; for every argument Locate hands to it (decided from the path conditions at the call site, evaluated on a concrete '
              'table X[k]=k, k<6, domain [0,5], arguments below/inside/above the domain and in the 1% zones) and every cached index 0..N-2, all table '
              'subscripts evaluated before the first loop iteration lie in 0..N-1', 1)
+    ctx.rule('C09.g', 'argument-keyed early returns: where a query member answers from the object under an exact test `argument == member`, the member '
+             'is a cache key, and no constructor may initialise it to a value an argument can take (a finite literal): a fresh object would answer '
+             'its first query for that argument from the constructor\'s placeholder instead of searching; NaN compares equal to nothing and is admissible', 1)
     ctx.sub('prefactor_degree', prefactor_degree, prog, ctx)
+    ctx.sub('keyed_early_returns', keyed_early_returns, prog, ctx)
     loc = prog.fn(CLS + '::Locate')
     cache = sorted(field_writes(loc))
     if not cache:
@@ -653,3 +657,49 @@ def prefactor_degree(prog, ctx):
             bad.append('%s: %s' % (o.cond, o.value))
     ctx.decide('C09.e', 'Derivative:degree', fn, not bad, 'every order is of degree one in the prefactor',
                'Derivative does not scale with the prefactor exactly once: %s' % bad, witness={'paths': bad} if bad else None)
+
+
+
+def keyed_early_returns(prog, ctx, R='C09.g'):
+    classes = (CLS, CLS + '_2D')
+    sites = []
+    for f in prog.all_functions():
+        if f.cls not in classes or f.d.get('ctor') or f.body is None:
+            continue
+        pids = set(p_['id'] for p_ in f.params)
+        for s_ in walk_stmts(f.body):
+            if s_['k'] != 'If':
+                continue
+            for n in walk_expr(s_['cond']):
+                if n.get('k') == 'Bin' and n.get('op') == '==':
+                    a, b = strip_casts(n['lhs']), strip_casts(n['rhs'])
+                    for x_, y_ in ((a, b), (b, a)):
+                        if x_.get('k') == 'Ref' and x_.get('id') in pids and y_.get('k') == 'Member' and y_.get('cls') in classes \
+                                and strip(y_.get('base') or {'k': 'This'}).get('k') == 'This' and 'double' in str(y_.get('ty', 'double')):
+                            returns = any(t_['k'] == 'Return' for t_ in walk_stmts(s_['then']))
+                            if returns:
+                                sites.append((f, s_, x_, y_))
+    ctx.holds(R, 'census', None, '%d argument-keyed early return(s) in the query members of %s' % (len(sites), ', '.join(classes)))
+    for f, s_, x_, y_ in sites:
+        key = y_['name']
+        inst = '%s:%s==%s' % (f.name, x_['name'], key)
+        for c in prog.all_functions():
+            if c.cls != f.cls or not c.d.get('ctor'):
+                continue
+            ini = [i for i in c.inits if i.get('field') == key and i.get('init') is not None and i.get('written', True)]
+            if not ini:
+                continue
+            e = strip_casts(ini[0]['init'])
+            while e.get('k') in ('Construct', 'Paren') and (e.get('args') or e.get('e')):
+                e = strip_casts(e['args'][0]) if e.get('k') == 'Construct' else strip_casts(e['e'])
+            txt = show(ini[0]['init'])
+            ci = '%s/ctor@%s' % (inst, c.d.get('l'))
+            if e.get('k') == 'Lit' or (e.get('k') == 'Un' and strip_casts(e.get('e', {})).get('k') == 'Lit'):
+                ctx.violated(R, ci, f, 'the constructor at line %s initialises the cache key `%s` to %s, and `%s` (line %s) answers `%s == %s` from the object without '
+                             'searching: the first query of a fresh object with the argument %s returns the constructor\'s placeholder, whatever the table is'
+                             % (c.d.get('l'), key, txt, f.name, s_.get('l'), x_['name'], key, txt),
+                             witness={'first_query': txt, 'constructor_line': c.d.get('l'), 'test_line': s_.get('l')}, line=s_.get('l'))
+            elif 'nan' in txt.lower():
+                ctx.holds(R, ci, f, 'key initialised to NaN (%s): equal to no argument' % txt)
+            else:
+                ctx.undecided(R, ci, f, 'cache key `%s` initialised to `%s`: whether an argument can equal it is not decided' % (key, txt))
